@@ -221,7 +221,8 @@ fn exec_reads(sc: &Scenario) -> Outcome {
             };
             let s = show(&r);
             d.str(&s);
-            let interesting = s.contains("matrix([") || s.contains("nested(");
+            let kinds = tree_kinds(&r);
+            let interesting = kinds.matrix || kinds.nested;
             for (i, doc) in sc.docs.iter().enumerate() {
                 let ctx = Ctx::new(true, vec![], None);
                 let v = verdict_with(&r, doc, &sc.render, &ctx);
@@ -283,7 +284,7 @@ fn exec_reads(sc: &Scenario) -> Outcome {
                 }
             }
             if interesting {
-                tree_probes(&s, &mut stats);
+                tree_probes(&r, &mut stats);
             }
         }
     }
